@@ -138,8 +138,17 @@ impl Check for C01 {
             6_000
         }
     }
-    fn gen_plan(&self, seed: u64, _idx: u64, _thorough: bool) -> Value {
+    fn gen_plan(&self, seed: u64, idx: u64, _thorough: bool) -> Value {
         let mut g = Gen::new(seed, "c01");
+        if idx % 10 == 9 {
+            // the Stream object driven through its AsyncRead / AsyncWrite implementation (how library users
+            // and the unit tests use it), fed and drained by the harness in place of the session
+            let net = gen_net(&mut g, false, true);
+            let inbound: Vec<u64> = (0..g.range(1, 10)).map(|_| chunk_size(&mut g, false)).collect();
+            let outbound: Vec<u64> = (0..g.range(1, 8)).map(|_| chunk_size(&mut g, false)).collect();
+            let rbuf: Vec<u64> = (0..g.range(1, 4)).map(|_| *g.pick(&[1u64, 2, 7, 64, 1000, 8192])).collect();
+            return json!({"net": net, "mode": "owned", "inbound": inbound, "outbound": outbound, "rbuf": rbuf, "feed_gap_us": *g.pick(&[0u64, 0, 1, 200]), "end": *g.pick(&["close", "keep"])});
+        }
         let big = g.chance(35);
         let net = gen_net(&mut g, big, true);
         let nstreams = g.range(1, if big { 3 } else { 6 });
@@ -155,6 +164,9 @@ impl Check for C01 {
     }
     fn run<'a>(&'a self, plan: &'a Value) -> ScenFut<'a> {
         Box::pin(async move {
+            if plan["mode"] == "owned" {
+                return run_owned(plan).await;
+            }
             let mut out = Outcome::ok();
             let scheme = plan["padding"].as_str().unwrap_or("stop=0");
             let cfg = crate::sim::pipe_cfg_from(&plan["net"]["pipe"]).unwrap_or_default();
@@ -272,4 +284,106 @@ impl Check for C01 {
     fn assumptions(&self) -> Vec<&'static str> {
         vec!["single-threaded interleavings at await points and named yield points only", "fault-free mode: no transport error is injected in this check (C09/C20 do that)"]
     }
+}
+
+
+/// An owned Stream through AsyncRead / AsyncWrite; the harness plays the session (feeds the inbound
+/// queue chunk by chunk, collects the outbound queue).
+async fn run_owned(plan: &Value) -> Outcome {
+    use anytls_rs::session::StreamReader;
+    use tokio::io::{AsyncReadExt, AsyncWriteExt};
+    let mut out = Outcome::ok();
+    let (in_tx, in_rx) = tokio::sync::mpsc::unbounded_channel::<Bytes>();
+    let (out_tx, mut out_rx) = tokio::sync::mpsc::unbounded_channel::<(u32, Bytes)>();
+    let (mut stream, _synack) = Stream::new(7, StreamReader::new(7, in_rx), out_tx);
+    let inbound = u64s(&plan["inbound"]);
+    let outbound = u64s(&plan["outbound"]);
+    let want_in = content(0x0A, total(&inbound));
+    let want_out = content(0x0B, total(&outbound));
+    let gap = plan["feed_gap_us"].as_u64().unwrap_or(0);
+    let close = plan["end"] == "close";
+    // feeder: what Session::handle_frame does with PSH frames, then (optionally) what FIN / close does
+    let (wi, inb) = (want_in.clone(), inbound.clone());
+    let feeder = anytls_simnet::spawn(async move {
+        let mut off = 0;
+        for c in inb {
+            let _ = in_tx.send(Bytes::copy_from_slice(&wi[off..off + c as usize]));
+            off += c as usize;
+            if gap > 0 {
+                tokio::time::sleep(Duration::from_micros(gap)).await;
+            } else {
+                tokio::task::yield_now().await;
+            }
+        }
+        if !close {
+            std::future::pending::<()>().await;
+        }
+        drop(in_tx);
+    });
+    // write side first: every write_all call becomes queue entries carrying this stream's id
+    let mut off = 0;
+    for c in &outbound {
+        if let Err(e) = stream.write_all(&want_out[off..off + *c as usize]).await {
+            out.viol("write-failed", "owned:write-failed", format!("AsyncWrite::write_all({} bytes) failed: {}", c, e));
+            return out;
+        }
+        off += *c as usize;
+    }
+    let _ = stream.flush().await;
+    let mut got_out = Vec::new();
+    while let Ok((id, b)) = out_rx.try_recv() {
+        if id != 7 {
+            out.viol("content", "owned:wrong-stream-id", format!("queue entry stamped with id {}", id));
+        }
+        got_out.extend_from_slice(&b);
+    }
+    if got_out != want_out {
+        out.viol("content", "owned:written-bytes-differ", format!("{} bytes written through AsyncWrite, {} queued for the session", want_out.len(), got_out.len()));
+    }
+    // read side: prefix property on every read, then end-of-stream exactly when the queue was closed
+    let rbuf = u64s(&plan["rbuf"]);
+    let mut pos = 0usize;
+    let mut k = 0usize;
+    let mut eof = false;
+    while pos < want_in.len() || close {
+        let sz = rbuf[k % rbuf.len()] as usize;
+        k += 1;
+        let mut b = vec![0u8; sz];
+        match timeout(Duration::from_secs(60), stream.read(&mut b)).await {
+            Err(_) => {
+                out.viol("missing", "owned:missing", format!("AsyncRead delivered {} of {} bytes and then nothing for 60 virtual s (chunks {:?})", pos, want_in.len(), inbound));
+                break;
+            }
+            Ok(Err(e)) => {
+                out.viol("read-error", "owned:read-error", format!("{}", e));
+                break;
+            }
+            Ok(Ok(0)) => {
+                if pos < want_in.len() || !close {
+                    out.viol("early-eof", format!("owned:early-eof:{}", class_of(&inbound)), format!("AsyncRead reported end-of-stream after {} of {} bytes (queue closed: {}, chunks {:?})", pos, want_in.len(), close, inbound));
+                }
+                eof = true;
+                break;
+            }
+            Ok(Ok(n)) => {
+                if pos + n > want_in.len() || b[..n] != want_in[pos..pos + n] {
+                    out.viol("content", "owned:read-bytes-differ", format!("bytes at offset {} differ from what was queued", pos));
+                    break;
+                }
+                pos += n;
+            }
+        }
+    }
+    if close && !eof && out.viols.is_empty() {
+        out.viol("missing", "owned:no-eof-after-close", "queue closed but AsyncRead never reported end-of-stream");
+    }
+    // after shutdown the stream refuses writes
+    let _ = stream.shutdown().await;
+    if stream.write_all(b"x").await.is_ok() && out_rx.try_recv().is_ok() {
+        out.viol("content", "owned:write-after-shutdown", "a write after shutdown() was queued for the session");
+    }
+    feeder.abort();
+    out.nontrivial = true;
+    out.summary = json!({"mode": "owned", "in": inbound, "out": outbound});
+    out
 }
